@@ -18,6 +18,7 @@ import (
 	"runtime/pprof"
 	"sort"
 	"strconv"
+	"strings"
 	"sync"
 	"sync/atomic"
 	"time"
@@ -123,8 +124,12 @@ func main() {
 		defer pprof.StopCPUProfile()
 		go func() { time.Sleep(20 * time.Second); pprof.StopCPUProfile(); f.Close(); os.Exit(0) }()
 	}
+	// The corruption streams are encoded first, in a fixed order, before any other
+	// use of gob in this process: gob assigns type ids in order of first use, so
+	// this makes their bytes the same in every run and in both tiers.
+	streams := buildStreams(r)
 	if *flagList {
-		for _, s := range buildStreams(r) {
+		for _, s := range streams {
 			fmt.Println(s.name(), "bounds", s.e.bounds, "msgs", len(s.msgs))
 			fmt.Printf("   %x\n", s.e.data)
 		}
@@ -220,9 +225,8 @@ func main() {
 
 	// ---------------- (b) corruption ----------------
 	if *flagOnly != "fidelity" {
-		streams := buildStreams(r)
 		cases := enumCases(streams)
-		rule += fmt.Sprintf("corruption: %d streams of <=150 bytes (1-3 batches; listed under corruption_streams) x {undamaged, every truncation point 0..len-1, every single-bit flip, "+
+		rule += fmt.Sprintf("corruption: %d streams of <=150 bytes (1-3 batches; listed under corruption_streams) x {undamaged, every truncation point 0..len-1, every single-bit flip, every pair of bit flips inside each batch-length message, "+
 			"every 2- and 3-byte burst of 0x00 and of 0xff that changes the bytes} x destination length {1,4} (and 128 when a batch has >4 rows); each decoded by the real reader in a child process "+
 			"(RLIMIT_AS %d MiB, panics recovered and reported, a killed child re-run alone). Oracle: delivered rows are a prefix of the rows written; no clean EOF with fewer rows than written, except a cut exactly "+
 			"at a batch boundary which must give exactly the batches before it and EOF; a cut strictly inside a batch must be an error; panic/crash/hang = violation. "+
@@ -259,6 +263,7 @@ func main() {
 		firstBySig := map[string]viol{}
 		countBySig := map[string]int{}
 		byKind := map[string]int{}
+		outcomeCounts := map[string]int{}
 		detected := int64(0)
 		var slowest int64
 		for _, c := range cases { // in enumeration order: simplest first
@@ -267,6 +272,10 @@ func main() {
 			sig, what, outcome := verdict(s, c, res)
 			scen := c.Dmg.Kind
 			outcomes.Add(scen + ": " + outcome)
+			outcomeCounts[scen+": "+outcome]++
+			if os.Getenv("C07_VERBOSE") == "2" && strings.HasPrefix(outcome, "damage not reported") {
+				fmt.Printf("  unreported: %s; %s (%s) dst=%d delivered=%d\n", s.name(), c.Dmg, s.region(c.Dmg.Pos), c.DstLen, res.Delivered)
+			}
 			byKind[scen]++
 			if res.Micros > slowest {
 				slowest = res.Micros
@@ -304,7 +313,7 @@ func main() {
 				"rows_delivered": v.r.Delivered, "terminal": v.r.Term, "message": v.r.Msg,
 				"cases_with_this_signature": countBySig[sg],
 			}
-			if v.c.Dmg.Kind == "flip" || v.c.Dmg.Kind == "burst" {
+			if v.c.Dmg.Kind == "flip" || v.c.Dmg.Kind == "flip2" || v.c.Dmg.Kind == "burst" {
 				det["damaged_region"] = s.region(v.c.Dmg.Pos)
 			} else if v.c.Dmg.Kind == "cut" && v.c.Dmg.Pos > 0 {
 				det["last_kept_byte_in"] = s.region(v.c.Dmg.Pos - 1)
@@ -328,6 +337,14 @@ func main() {
 		cov["corruption_decodes_by_damage"] = byKind
 		cov["corruption_decodes_where_damage_was_reported_or_violated"] = detected
 		cov["corruption_violating_cases_by_signature"] = countBySig
+		cov["corruption_outcome_counts"] = outcomeCounts
+		if os.Getenv("C07_VERBOSE") != "" {
+			for _, k := range outcomes.Keys() {
+				if outcomeCounts[k] > 0 {
+					fmt.Printf("  %6d  %s\n", outcomeCounts[k], k)
+				}
+			}
+		}
 		cov["child_processes"] = cst.spawns
 		cov["child_processes_killed_by_a_case"] = cst.crashes
 		cov["child_hangs"] = cst.hangs
@@ -340,10 +357,5 @@ func main() {
 	cov["rule"] = rule
 	cov["distinct_outcomes"] = outcomes.Distinct()
 	cov["outcomes"] = outcomes.Keys()
-	if os.Getenv("C07_VERBOSE") != "" {
-		for _, k := range outcomes.Keys() {
-			fmt.Println("  outcome:", k)
-		}
-	}
 	r.Finish(cov)
 }
